@@ -34,5 +34,5 @@ for wave, pred in [('wave1', lambda k: k in (1, 2)), ('wave2', lambda k: k in (3
 if '--fill' in sys.argv:
     p = os.path.join(VERIF, 'DESIGN.md'); t = open(p).read()
     for sid, (rc, txt) in rows.items():
-        t = t.replace('W3NOW_' + sid + ' |', txt + ' |')
+        t = t.replace('W3NOW_' + sid + ' |', txt + ' |').replace('W4NOW_' + sid + ' |', txt + ' |')
     open(p, 'w').write(t)
